@@ -38,6 +38,9 @@ func scenarios(thorough bool) []scen {
 		{"failover-timer|up|force", failover, [][]string{{"up"}, {"force"}}},
 		// a promotion attempt whose callback fails, raced with a recovery; afterwards the callback works again and a further failover delay passes
 		{"failover-timer(cb fails)|up;cb ok;+10s", []string{"down", "cbfail", "adv10"}, [][]string{{"up", "join-attempt", "cbok", "adv10"}}},
+		// two probe results reported concurrently (periodic check and CheckNow) while a failover is pending: the monitor
+		// calls its handlers after releasing its lock, so the two reports can reach the controller in either order
+		{"pending|up|down (two monitor callers);+5s", []string{"down", "adv5"}, [][]string{{"up", "join-all", "adv5"}, {"down"}}},
 		{"failback-timer|down", failback, [][]string{{"down"}}},
 		{"failback-timer|down|tick", failback, [][]string{{"down"}, {"tick"}}},
 		{"failback-timer|tick (partner down)", failbackDown, [][]string{{"tick"}}},
@@ -58,6 +61,7 @@ type schedState struct {
 	o         *oracle
 	promoted  bool
 	attempted bool // a role-change callback ran, or the controller announced a cancel
+	finished  int  // spawned event threads that have run to their end
 }
 
 func (sc scen) scenario() *sched.Scenario {
@@ -110,6 +114,12 @@ func (sc scen) scenario() *sched.Scenario {
 					o.cbFail = true
 				case "cbok":
 					o.cbFail = false
+				case "adv5":
+					x.Advance(5 * time.Second)
+				case "join-all":
+					for st.finished < len(sc.threads)-1 && !x.Aborted() {
+						x.Block(joinKey, "join")
+					}
 				case "join-attempt":
 					for !st.attempted && !x.Aborted() {
 						x.Block(joinKey, "join")
@@ -134,6 +144,8 @@ func (sc scen) scenario() *sched.Scenario {
 						for _, op := range sc.threads[i] {
 							do(fmt.Sprintf("E%d", i), op)
 						}
+						st.finished++
+						x.Wake(joinKey)
 					})
 				}
 				for _, op := range sc.threads[0] {
